@@ -101,6 +101,11 @@ def check_case(fn, recipe, script, kind, T, vname, rec=None, then=None, delivery
     from ptera.overlay import BaseOverlay
     from ptera.selector import SelectorError
 
+    # then = ("with-named", None, v): not a later probe but a companion probe `f > v` (a plain named
+    # capture) that is active AT THE SAME TIME as the tagged one, on the same function
+    companion = None
+    if then is not None and then[0] == "with-named":
+        companion, then = then[2], None
     src = PG.render(fn)
     extra = {"tag": ptera.tag}
     H = PR.Hooks()
@@ -151,20 +156,31 @@ def check_case(fn, recipe, script, kind, T, vname, rec=None, then=None, delivery
             spy = None
         else:
           with PR.time_limit(3.0):
-            p = probing(sel, env={"f": f}, raw=True)
-            p.subscribe(on)
+            comp_got = []
+            if companion is not None:
+                cp = probing(f"f > {companion}", env={"f": f})
+                cp.subscribe(lambda d: comp_got.append(PR.nrepr(d[companion])))  # rendered at event time
+                cp.__enter__()
             try:
-                p.__enter__()
-            except BaseException as e:
-                refused = e
-            else:
+                p = probing(sel, env={"f": f}, raw=True)
+                p.subscribe(on)
                 try:
-                    spysel = ptera.select("f > $y", env={"f": f})
-                    with BaseOverlay(Immediate(spysel, trigger=lambda a: spy.extend(
-                            (c.name, PR.nrepr(c.value)) for c in a.values()))):
-                        PR.run_call(f, fn, recipe, glb, script)
-                finally:
-                    p.__exit__(None, None, None)
+                    p.__enter__()
+                except BaseException as e:
+                    refused = e
+                else:
+                    try:
+                        spysel = ptera.select("f > $y", env={"f": f})
+                        with BaseOverlay(Immediate(spysel, trigger=lambda a: spy.extend(
+                                (c.name, PR.nrepr(c.value)) for c in a.values()))):
+                            PR.run_call(f, fn, recipe, glb, script)
+                    finally:
+                        p.__exit__(None, None, None)
+            finally:
+                if companion is not None:
+                    cp.__exit__(None, None, None)
+            if companion is not None and refused is None:
+                spy = None  # the companion's variable is instrumented too
     except PR.Timeout:
         HY.force_global_clean()
         raise PropertyViolation("hang", f"probed run did not finish within 3 s of CPU time\n{ctxt}")
@@ -178,6 +194,12 @@ def check_case(fn, recipe, script, kind, T, vname, rec=None, then=None, delivery
             HY.force_global_clean()
         if then is None:
             PR.forget(glb)
+    if companion is not None and refused is None and not (delivery == "overlay" and exists):
+        cw = [v for n, v, tg in binds if n == companion]
+        if comp_got != cw:
+            raise PropertyViolation(
+                "companion", f"while {sel!r} was active, the plain probe f > {companion} on the same function "
+                             f"received {comp_got}, expected {cw}\n{ctxt}", extra={"bucket": "companion"})
     if not exists:
         # a tag carried by no binding (of that variable): must be refused, not silently accepted
         if refused is None:
@@ -214,6 +236,8 @@ def check_case(fn, recipe, script, kind, T, vname, rec=None, then=None, delivery
         feats = {"kind:" + kind, "exists" if exists else "unused-tag", "delivery:" + delivery}
         if then is not None:
             feats.add("second-probe-on-same-function")
+        if companion is not None:
+            feats.add("named-probe-active-at-the-same-time")
         if any(len(tgs) >= 2 for tgs in st_.values()):
             feats.add("re-annotated")
         if any("tag." in (p[3] or "") for p in fn["params"]) or any(
@@ -326,6 +350,11 @@ def strategy():
         if draw(st.integers(0, 2)) == 0:
             then = (draw(st.sampled_from(["generic-tag", "named-tag", "generic", "star-tag"])),
                     draw(st.sampled_from("ABC")), names[draw(st.integers(0, len(names) - 1))])
+        elif draw(st.integers(0, 1)) == 0:
+            decl = PG.declared_scope_names(fn)
+            plain = sorted(n for n in PG.bound_names(fn) if n not in decl and not n.startswith("g_"))
+            if plain:
+                then = ("with-named", None, plain[draw(st.integers(0, len(plain) - 1))])
         delivery = draw(st.sampled_from(["probing", "probing", "overlay"]))
         return ("case", fn, recipe, script, kind, T, vname, then, delivery)
 
